@@ -704,6 +704,12 @@ class Scheduler:
             async with job.launcher.connector.lock(job.lockpath):
                 logger.debug("[starting] Locked job %s", job)
 
+                if job.donepath.exists():
+                    # Completed by another process while we were waiting for
+                    # the lock: nothing to launch (a launch would truncate the
+                    # output files of the run that succeeded)
+                    return JobState.DONE
+
                 state = None
                 try:
                     logger.debug(
